@@ -30,8 +30,10 @@ RULE = ('programs: (a) typed random C programs (c28_gen: structs/unions/enums/ty
         '(c28_c3) through api.c3c likewise; (c) invalid-but-plausible programs: ~1300 C and ~950 C3 one-defect templates, '
         'the cross product of 90 questionable constant expressions x 56 constant contexts (sampled in the quick tier), '
         'token-level mutants of (a)/(b); through c_to_ir / c3_to_ir; (d) the minimised witness of every recorded class. '
-        'distinct_nontrivial = programs that reached an outcome other than a parse error at the first token, counted as '
-        'distinct source texts. Outcome classes: ok | diagnostic (CompilerError) | internal (anything else) | timeout '
+        'distinct_nontrivial = number of distinct source texts compiled in the run (every one is a full program). '
+        'Quick tier: 130 C + 60 C3 generated programs, 120 mutants, a rotating third of the templates and an eighth of '
+        'the constant contexts (the seed selects which); thorough: 2200 + 900 + 1900 mutants + all templates/contexts. '
+        'Outcome classes: ok | diagnostic (CompilerError) | internal (anything else) | timeout '
         '(counted, never reported).')
 EXPLANATION = ('PARTIAL, decided by search. Coq (Props/C28.v): no-Internal theorems for the modelled components only: '
                'C constant-expression evaluation + packing over the whole operator set (C27 model; refuted as found: '
@@ -143,7 +145,9 @@ def minimise(runner, task, key, budget=260):
 # ------------------------------------------------------------------ program streams
 def streams(ctx):
     """-> [task] (without ids)"""
-    rng = ctx.rng
+    # own generator: the program stream of (tier, seed) does not depend on what else consumed ctx.rng, so that
+    # bootstrap() and ./check enumerate the same programs
+    rng = random.Random('c28-%s-%d' % (ctx.tier, ctx.seed))
     deep = not ctx.quick()
     tasks = []
     nT = len(R.TARGETS)
